@@ -25,6 +25,7 @@
      RespFidelity   what the client decodes is what the Handler returned (data, version / blinded / values in body and headers,
                     execution_optimistic / dependent_root), the proxied response is passed back unchanged
      ErrorsShaped   an error answer carries its own status as `code`; a Handler error is a 5xx; a panic costs one connection
+     CtxPropagates  the context of a Handler call ends when the client goes away ("canceled") and after the request timeout
    Deliberately as coded (the documents are silent or the code says so): a wrong method / a trailing slash / an unknown
    sub-path of an intercepted path is PROXIED; a path that needs cleaning (// or ..) is redirected (301) to the clean path;
    an escaped slash (%2F) is matched like a slash; builder_boost_factor of the request is ignored (0 or max-uint64 by
@@ -225,6 +226,9 @@ ObjsFixed(c) == T(c).body \in {"objs", "idx"} /\ c.body.form # "wrongfork"
 NoMeta == [x \in {"_"} |-> ""]
 ErrOut(s) == [status |-> s, ctype |-> "json", code |-> s, objs |-> <<>>, meta |-> NoMeta]
 EmptyOut == [status |-> 200, ctype |-> "none", code |-> 0, objs |-> <<>>, meta |-> NoMeta]
+GoneOut == [status |-> 0, ctype |-> "none", code |-> 0, objs |-> <<>>, meta |-> NoMeta]
+Blocking == {"cancel", "timeout"}
+ImplCtxEnd(kind) == IF kind = "timeout" \/ Variant = "bgctx" THEN "deadline" ELSE "canceled"
 BlindedOf(ret) == IF Variant = "blindedflip" THEN (IF ret.blinded = "true" THEN "false" ELSE "true") ELSE ret.blinded
 \* response construction can fail on what the Handler returned
 RetFault(rk, ret) ==
@@ -250,7 +254,9 @@ DataForms(rk, ret) == IF rk = "data" /\ ret.objs = <<>> THEN {<<>>, <<"null">>} 
 \* the possible answers after the Handler returned `ret`
 OutsAfter(c, ret) ==
   LET rk == T(c).rk IN
-  IF ret.kind = "panic" THEN {[status |-> 0, ctype |-> "none", code |-> 0, objs |-> <<>>, meta |-> NoMeta], ErrOut(500)}
+  IF ret.kind = "panic" THEN {GoneOut, ErrOut(500)}
+  ELSE IF ret.kind = "cancel" THEN {GoneOut}                 \* the client is gone: nobody sees what is written
+  ELSE IF ret.kind = "timeout" THEN {ErrOut(408)}
   ELSE IF ret.kind = "err" THEN {ErrOut(500)}
   ELSE IF rk = "none" THEN {EmptyOut}
   ELSE IF RetFault(rk, ret) # 0 THEN {ErrOut(RetFault(rk, ret))}
@@ -266,43 +272,51 @@ EventsOut(ret) == IF ret.kind = "err" THEN ErrOut(500)
 \* ---------------------------------------------------------------------------------------------------------------------
 \* one request
 \* ---------------------------------------------------------------------------------------------------------------------
-VARIABLES c, pc, hcalled, hcall, pcalled, pcall, ucalled, out
-vars == <<c, pc, hcalled, hcall, pcalled, pcall, ucalled, out>>
+VARIABLES c, pc, hcalled, hcall, pcalled, pcall, ucalled, out, ctxend
+vars == <<c, pc, hcalled, hcall, pcalled, pcall, ucalled, out, ctxend>>
 NoCall == [m |-> "-", args |-> NoMeta, objs |-> <<>>, ret |-> [kind |-> "-"]]
 NoOut == [status |-> -1, ctype |-> "none", code |-> 0, objs |-> <<>>, meta |-> NoMeta]
-InitRun == pc = "start" /\ hcalled = FALSE /\ hcall = NoCall /\ pcalled = FALSE /\ pcall = NoCall /\ ucalled = FALSE /\ out = NoOut
+InitRun == pc = "start" /\ hcalled = FALSE /\ hcall = NoCall /\ pcalled = FALSE /\ pcall = NoCall /\ ucalled = FALSE /\ out = NoOut /\ ctxend = ""
 Finish(o) == out' = o /\ pc' = "done"
 
 \* mux: clean-path redirect, route match
-Dispatch == /\ pc = "start" /\ UNCHANGED <<c, hcalled, hcall, pcalled, pcall, ucalled>>
+Dispatch == /\ pc = "start" /\ UNCHANGED <<ctxend, c, hcalled, hcall, pcalled, pcall, ucalled>>
             /\ CASE Route(c) = "redirect" -> Finish([status |-> 301, ctype |-> "other", code |-> 0, objs |-> <<>>, meta |-> NoMeta])
                  [] Route(c) = "handler" -> pc' = "parse" /\ out' = out
                  [] Route(c) = "proxy" -> pc' = "proxy" /\ out' = out
                  [] Route(c) = "events" -> pc' = "events" /\ out' = out
 \* wrap + the handler function up to the Handler call
-Parse == /\ pc = "parse" /\ UNCHANGED <<c, hcalled, hcall, pcalled, pcall, ucalled>>
+Parse == /\ pc = "parse" /\ UNCHANGED <<ctxend, c, hcalled, hcall, pcalled, pcall, ucalled>>
          /\ IF CtypeFault(c) # 0 THEN Finish(ErrOut(CtypeFault(c)))
             ELSE IF T(c).h = "404" THEN Finish(ErrOut(404))
             ELSE IF T(c).h = "swallow" THEN Finish(EmptyOut)
             ELSE IF Fault(c) # 0 THEN Finish(ErrOut(Fault(c)))
             ELSE pc' = "call" /\ out' = out
 \* a body made for another fork: the unmarshaller may refuse it
-RefuseWrongFork == /\ pc = "call" /\ c.body.form = "wrongfork" /\ UNCHANGED <<c, hcalled, hcall, pcalled, pcall, ucalled>>
+RefuseWrongFork == /\ pc = "call" /\ c.body.form = "wrongfork" /\ UNCHANGED <<ctxend, c, hcalled, hcall, pcalled, pcall, ucalled>>
                    /\ Finish(ErrOut(IF T(c).mask THEN Masked ELSE 400))
 \* the Handler method is called (objs: the objects it got; ret: what it answered)
-Call(objs, ret) == /\ pc = "call" /\ UNCHANGED <<c, pcalled, pcall, ucalled, out>>
+Call(objs, ret) == /\ pc = "call" /\ UNCHANGED <<ctxend, c, pcalled, pcall, ucalled, out>>
                    /\ ObjsFixed(c) => objs = c.sent
-                   /\ hcalled' = TRUE /\ hcall' = [m |-> T(c).h, args |-> ImplArgs(c), objs |-> objs, ret |-> ret] /\ pc' = "respond"
-Respond == /\ pc = "respond" /\ UNCHANGED <<c, hcalled, hcall, pcalled, pcall, ucalled>>
+                   /\ hcalled' = TRUE /\ hcall' = [m |-> T(c).h, args |-> ImplArgs(c), objs |-> objs, ret |-> ret]
+                   /\ pc' = IF ret.kind \in Blocking THEN "blocked" ELSE "respond"
+Respond == /\ pc = "respond" /\ UNCHANGED <<ctxend, c, hcalled, hcall, pcalled, pcall, ucalled>>
            /\ \E o \in OutsAfter(c, hcall.ret) : Finish(o)
 \* proxy(h): Handler.Proxy gets the request as it came (seen: what it saw, as the stub logs it), its response is copied
-ProxyCall(seen, ret) == /\ pc = "proxy" /\ UNCHANGED <<c, hcalled, hcall, ucalled>>
+ProxyCall(seen, ret) == /\ pc = "proxy" /\ UNCHANGED <<ctxend, c, hcalled, hcall, ucalled>>
                         /\ pcalled' = TRUE /\ pcall' = [m |-> "Proxy", args |-> seen, objs |-> <<>>, ret |-> ret]
-                        /\ Finish(ProxyOut(ret))
+                        /\ IF ret.kind \in Blocking THEN pc' = "pblocked" /\ out' = out ELSE Finish(ProxyOut(ret))
+\* A Handler method (or Handler.Proxy) that does not return before its context ends: the context handed to it ends with
+\* "canceled" when the client goes away and with "deadline" after defaultRequestTimeout (10 s); the error it then returns is
+\* written as 408 (writeError looks at the context first).  err: how the context ended ("none": it did not).
+CtxEnd(err) == /\ pc \in {"blocked", "pblocked"} /\ ctxend' = err /\ pc' = (IF pc = "blocked" THEN "respond" ELSE "prespond")
+               /\ UNCHANGED <<c, hcalled, hcall, pcalled, pcall, ucalled, out>>
+PRespond == /\ pc = "prespond" /\ UNCHANGED <<ctxend, c, hcalled, hcall, pcalled, pcall, ucalled>>
+            /\ Finish(IF pcall.ret.kind = "cancel" THEN GoneOut ELSE ErrOut(408))
 \* eventsHandler: reverse proxy to Handler.Address() with Handler.Headers(); an address that does not parse is a 500
-EventsBadAddr == /\ pc = "events" /\ c.ans.kind = "badaddr" /\ UNCHANGED <<c, hcalled, hcall, pcalled, pcall, ucalled>>
+EventsBadAddr == /\ pc = "events" /\ c.ans.kind = "badaddr" /\ UNCHANGED <<ctxend, c, hcalled, hcall, pcalled, pcall, ucalled>>
                  /\ Finish(ErrOut(500))
-EventsCall(seen, ret) == /\ pc = "events" /\ c.ans.kind # "badaddr" /\ UNCHANGED <<c, hcalled, hcall, pcalled>>
+EventsCall(seen, ret) == /\ pc = "events" /\ c.ans.kind # "badaddr" /\ UNCHANGED <<ctxend, c, hcalled, hcall, pcalled>>
                          /\ ucalled' = TRUE /\ pcall' = [m |-> "Upstream", args |-> seen, objs |-> <<>>, ret |-> ret]
                          /\ Finish(EventsOut(ret))
 
@@ -329,6 +343,10 @@ RespFidelity == /\ Done /\ hcalled /\ hcall.ret.kind = "ok" /\ out.status = 200 
                 /\ Done /\ hcalled /\ hcall.ret.kind = "ok" /\ Table[c.ep].rk \in {"none", "data", "sduties", "vals", "nodever"} => out.status = 200
 ErrorsShaped == Done => /\ out.status >= 400 /\ ~(pcalled /\ pcall.ret.kind = "ok") /\ ~ucalled => out.code = out.status /\ out.ctype = "json"
                         /\ hcalled /\ hcall.ret.kind = "err" => out.status \in 500..599
-                        /\ out.status # 0 \/ (hcalled /\ hcall.ret.kind = "panic")
-Safety == Exclusive /\ NoCallOnFault /\ ArgFidelity /\ RespFidelity /\ ErrorsShaped
+                        /\ out.status # 0 \/ (hcalled /\ hcall.ret.kind \in {"panic", "cancel"}) \/ (pcalled /\ pcall.ret.kind = "cancel")
+\* the context the Handler gets is the request's: it ends when the client goes away, and after the request timeout
+Blocked == IF hcalled THEN hcall.ret.kind ELSE IF pcalled THEN pcall.ret.kind ELSE "-"
+CtxPropagates == Done => /\ Blocked = "cancel" => ctxend = "canceled"
+                         /\ Blocked = "timeout" => ctxend = "deadline" /\ out.status = 408
+Safety == Exclusive /\ NoCallOnFault /\ ArgFidelity /\ RespFidelity /\ ErrorsShaped /\ CtxPropagates
 ====
